@@ -129,10 +129,11 @@ def judge_es(ctx, mon, x, p, dim, out, sig):
         pn = Fraction(float(p)) * n
         ctx.branch("es.pN_integral" if pn == int(pn) or len(ks) > 1 else "es.pN_fractional")
         got = out_at(out, dim, x, j)
-        mx = max(abs(c) for c in col)
+        srt = sorted(col)
         ok = False
         for k in ks:
             want = R.expected_shortfall(col, k)
+            mx = max(abs(c) for c in srt[:k])  # the mean of the k selected outcomes is accurate relative to *their* size, whatever else the sample holds
             if math.isfinite(got) and abs(Fraction(got) - want) <= (k + 4) * e * mx + 1e-300:
                 ok = True
         if not ok:
@@ -265,15 +266,17 @@ def _mk(name):
             def fn(input, lam, dim=None):
                 try:
                     out = orig(input, lam, dim)
-                except RuntimeError as ex:
-                    if _CTX is None or dim is None or "max_iter" not in str(ex):
+                except (RuntimeError, ValueError) as ex:
+                    # the search fails in three ways on a column that is constant at the resolution of its dtype: iteration cap, empty bracket, log10(0)
+                    if _CTX is None or dim is None or not any(m_ in str(ex) for m_ in ("max_iter", "math domain error", "lower < upper")):
                         raise
-                    xm = input.detach().movedim(dim, 0)
-                    spread = float((xm.amax(0) - xm.amin(0)).max())
-                    near_const = spread <= 1e-5 * float(xm.abs().max()) + 1e-300
+                    xm = input.detach().movedim(dim, 0).to(F64)
+                    rel = (xm.amax(0) - xm.amin(0)) / (xm.abs().amax(0) + 1e-300)  # per column: a column is its own sample
+                    spread = float(rel.min())
+                    near_const = spread <= 1e-5
                     _CTX.seen(name)
                     _CTX.violation(name, "qcvar.bisect_max_iter_near_constant_sample" if near_const else "qcvar.bisect_max_iter",
-                                   f"quadratic_cvar raised {ex} (column spread {spread!r}, max|x| {float(xm.abs().max())!r}, dtype {input.dtype})",
+                                   f"quadratic_cvar raised {type(ex).__name__}: {ex} (smallest relative column spread {spread!r}, max|x| {float(xm.abs().max())!r}, dtype {input.dtype})",
                                    sample=input.detach().reshape(-1)[:40], lam=lam, dim=dim)
                     return input.new_full(exp_shape(input, dim), float("nan"))
                 if _CTX is not None and dim is not None:  # dim=None recurses into the dim=0 form, judged there
@@ -314,6 +317,18 @@ def gen_sample(rng, dtype=None, positive=False, moderate=False):
     x, style = sample(rng, (n,) + tuple(trail), dtype, scale=scale)
     if positive:
         x = x.abs() + float(pick(rng, [0.1, 1.0, 1e-3])) * scale
+    elif not moderate and n >= 2:
+        u = rng.random()
+        if u < 0.12:
+            # one outcome orders of magnitude above the rest (a jackpot path): the tail statistics are about the small ones
+            x = x.clone()
+            x[int(rng.integers(n))] = abs(float(x.abs().max())) * 1e6 + 1e6 * scale
+            style += "+outlier"
+        elif u < 0.24 and trail:
+            # columns sitting at very different cash levels (the same strategy booked against different fixed amounts)
+            lev = t(rng.standard_normal(tuple(trail)) * float(pick(rng, [1e3, 1e5, 1e6])) * scale, dtype)
+            x = x + lev
+            style += "+column_levels"
     return x, style, scale
 
 
@@ -493,6 +508,19 @@ def drv_modules(ctx, k, rng):
         if not abs(mpmath.mpf(got) - want) <= (n + 16) * e * (abs(want) + 1 + max(abs(math.log(c)) for c in col)):
             ok = False
     ctx.check(mon, ok, "value", "IsoelasticLoss != -mean utility", sig=("IsoelasticLoss", ncls(n), str(x.dtype), x.dim(), ai), x=d, a=ai, got=out)
+    # small positive wealth on some paths (down to the smallest normal numbers of the dtype), with and without a target
+    ctx.seen(mon)
+    lo_e = -36 if x.dtype == F32 else -300
+    wt = t(10.0 ** rng.uniform(lo_e, 0, 6), x.dtype)
+    tg2 = float(pick(rng, [0.0, 0.0, 0.25]))
+    out = m(wt + tg2, tg2) if tg2 else m(wt)
+    col = (wt + tg2 - tg2 if tg2 else wt).to(F64).tolist()
+    okt = True
+    if min(col) > 0:
+        want = -R.isoelastic_mean(col, ai)
+        okt = abs(mpmath.mpf(float(out)) - want) <= 64 * e * (abs(want) + max(abs(math.log(c)) for c in col) if ai == 1.0 else abs(want) + 1e-300)
+    ctx.check(mon, okt, "value", "IsoelasticLoss != -mean utility at small positive wealth", sig=("IsoelasticLoss.tiny", str(x.dtype), ai, bool(tg2)), x=wt, a=ai,
+              target=tg2, got=out)
     # OCE with assigned w
     mon = "module.OCE"
     ctx.seen(mon)
